@@ -157,7 +157,8 @@ class StubsStringGenerator:
 
         # Create enums & enum instances
         for enum in module.enums:
-            module_text += f"\n{self._create_enum_string(enum)}\n"
+            if enum.is_public:
+                module_text += f"\n{self._create_enum_string(enum)}\n"
 
         # Create imports - We have to create them last, since we have to check all used types in this module first
         module_header += self._create_imports_string()
